@@ -38,6 +38,7 @@ RULES = {
     "R2": rules_extra.rule_R2,
     "G7": rules_bounds.rule_G7,
     "Z2": rules_assume.rule_Z2,
+    "P3b": rules_state.rule_P3b,
 }
 
 SELFTESTS = {"T1": rules_types.selftest_T1}
@@ -107,7 +108,7 @@ PROPS = {
     "C06": {
         "id": "C06",
         "title": "Streaming processors are invariant to how the stream is framed",
-        "rules": ["H1", "V1", "P2", "P3", "S2"],
+        "rules": ["H1", "V1", "P2", "P3", "P3b", "S2"],
         "clause": "structural necessary conditions of framing invariance: every array-valued state member a process() method rewrites "
                   "(delay line, history, overlap tail) receives a value that depends on its previous contents and on the input frame, "
                   "and the returned frame depends on the input and on that state (a history longer than the frame survives; no call "
